@@ -147,6 +147,7 @@ class Driver:
         self.alias_twin = 0.25        # equal sub-trees of a rule written once and referred to by a YAML alias (same object twice)
         self.compile_twice = 0.08
         self.inert_config = 0.15
+        self.allow_any_order_defs = False     # C05: capture definitions inside $and_any_order are judged too (open finding F21)
         self.other_listing = None     # path of a copy of the previous listing of this shard
         self.other_range_safe = False
         self.count_model_nontrivial = False
@@ -208,7 +209,7 @@ class Driver:
                     ctx.event("skipped_can_match_empty")
                     return False
                 ctx.event("patterns_that_can_match_empty")
-            if not M.defs_on_spine(root):
+            if not M.defs_on_spine(root, self.allow_any_order_defs):
                 ctx.event("skipped_capture_definition_off_spine")
                 return False
         except M.Unsupported as e:
